@@ -4,6 +4,7 @@ import (
 	"errors"
 	"fmt"
 	"reflect"
+	"sort"
 
 	"github.com/karagenc/socket.io-go/parser"
 	"github.com/karagenc/socket.io-go/parser/json/serializer"
@@ -227,10 +228,15 @@ func (p *Parser) deconstructStruct(rv reflect.Value, d *deconstruction) (buffers
 }
 
 func (p *Parser) deconstructMap(rv reflect.Value, d *deconstruction) (buffers [][]byte, err error) {
-	iter := rv.MapRange()
-	for iter.Next() {
-		mk := iter.Key()
-		mv := iter.Value()
+	// The entries are visited in key order (the order in which the JSON encoder writes them), not
+	// in Go's random map order: the attachments of a map are numbered the same way every time.
+	keys := rv.MapKeys()
+	if rv.Type().Key().Kind() == reflect.String {
+		sort.Slice(keys, func(i, j int) bool { return keys[i].String() < keys[j].String() })
+	}
+
+	for _, mk := range keys {
+		mv := rv.MapIndex(mk)
 		original := mv
 		k := mv.Kind()
 
